@@ -538,6 +538,12 @@ def dict_key(v):
             return True, c
         except TypeError:
             pass
+    if isinstance(v, VObj) and (v.inst.cls is None or (v.inst.cls.find_method("__hash__") is None and v.inst.cls.find_method("__eq__") is None)):
+        return True, ("obj", id(v.inst))  # objects hash and compare by identity unless their class says otherwise
+    if isinstance(v, VExt):
+        return True, ("ext", v.name)  # torch.float64, a function, ...: itself
+    if isinstance(v, VUnknown) and v.kind in ("dtype", "device") and v.tag:
+        return True, ("sym", v.tag)  # the dtype / device of one tensor: the same key every time it is asked for
     if isinstance(v, VTuple):
         ks = [dict_key(x) for x in v.items]
         return all(k[0] for k in ks), tuple(k[1] for k in ks)
